@@ -710,6 +710,18 @@ def scripted():
     h('chan-error-ring-full', 'hb 1000000; as 1 1; ap 2 2; we sr 1 6; we pr 2 2 2 5 3 6; fs 1; fp 2; rf 1; dp 2; we er 6 4; fp 2; ds 1; rf 0; fs 1; fp 2; ap 1 1')
     h('chan-error-driver-inactive-drop', 'hb 1000000; ap 1 1; we pr 1 1 1 5 3 6; fp 1; we er 6 4; tk 10001; w; dp 1; fp 1')
     h('error-code-4-vs-others-same-id', 'hb 1000000; as 6 6; we sr 1 1; fs 1; we er 1 3; fs 1; we er 1 4; fs 1; ps 1; we er 1 5; fs 1')
+    # destination requests are stamped with the clock at the call, not with the time of the last duty cycle: duty cycle at T0, the four
+    # requests at T0+4000, no answer; lookups at T0+T+1 (stale stamp would time out here), request+T (not yet) and request+T+1 (time-out)
+    h('dest-timeout-from-request-not-last-cycle',
+      'hb 1000000; as 1 1; w; tk 4000; ad 0 1 1; ad 1 1 2; ad 2 1 3; ad 3 1 4; tk 6001; fd 2; fd 3; fd 4; fd 5; tk 3999; fd 2; fd 3; fd 4; fd 5;'
+      'tk 1; fd 2; fd 3; fd 4; fd 5; fd 2')
+    for v in (0, 1, 2, 3):
+        # the same per variant, with a duty cycle between request and lookups and an answer for a second request
+        h('dest-timeout-boundary-variant-%d' % v,
+          'hb 1000000; w; tk 2500; ad %d 7 1; tk 1500; w; ad %d 7 2; tk 6001; fd 1; fd 2; tk 2499; fd 1; tk 1; fd 1; fd 2; hb 1012501; we os 2; fd 2; tk 1500; fd 2; fd 1' % (v, v),
+          cfg=(0, 1000000, 10000, 20000))
+    # publications / subscriptions / counters requested some time after the last duty cycle (same clause)
+    h('add-after-idle-timeout-from-request', 'hb 1000000; w; tk 4000; ap 1 1; as 1 1; ac 1 1 1; tk 6001; fp 1; fs 2; fc 3; tk 3999; fp 1; fs 2; fc 3; tk 1; fp 1; fs 2; fc 3')
     if has_find_excl_hook():
         h('chan-error-xpub', 'hb 1000000; ax 1 1; ax 2 2; ax 3 3; we xr 1 1 5 3 6; we xr 2 2 5 3 6; we xr 3 3 5 3 7; fx 1; fx 3; we er 6 4; px 1; fx 1; fx 2; fx 3; px 3; dx 1; we er 6 4; fx 2; cl')
     if has_find_excl_hook():
